@@ -407,7 +407,7 @@ def send_probe(n, ev, env, cans):
         return None, [("builder", {"event": ev, "observed": f"request unreadable: {exc(ex)}"})]
     if mt != kind:
         v.append(("builder", {"event": ev, "observed": f"message type {mt!r}", "expected": kind}))
-    if kind == "G":
+    if kind in ("G", "F"):
         v += wire_check(ev, px, qty)
     if cid is None or cid in n.h.used:
         v.append(("fresh", {"event": ev, "observed": cid, "used_before": list(n.h.used)}))
